@@ -118,10 +118,28 @@ def build_registry(darsia, rng):
 
     def _sub_then_append():
         c_ = S1.subregion((slice(0, shp[0] - 1), slice(0, shp[1])))
-        c_.append(darsia.Image(Sg.img[: shp[0] - 1].copy(), space_dim=2, dimensions=list(c_.dimensions), scalar=True, time=9.0))
+        c_.append(c_.time_slice(0), offset=1.0)  # a guest that fits the child (same place, same kind)
         return c_
 
     add("sum_of_series_then_append_to_result", [S1, S2, Sg], _sum_then_append)
+    # caller-owned lists of time stamps handed to the constructor (one list serving two series), and the operands of
+    # a superposition: the image built from them is extended afterwards
+    own_times = [float(t) for t in (S1.time if isinstance(S1.time, list) else range(S1.img.shape[-1]))]
+    twin = darsia.Image(S1.img.copy(), space_dim=2, dimensions=list(S1.dimensions), scalar=True, series=True, time=own_times)
+
+    def _construct_then_append():
+        n_ = darsia.Image(S1.img.copy(), space_dim=2, dimensions=list(S1.dimensions), scalar=True, series=True, time=own_times)
+        n_.append(Sg.copy(), offset=1.0)
+        return n_
+
+    def _superpose_then_append():
+        r_ = darsia.superpose([S1, S2])
+        if isinstance(r_.time, list):
+            r_.time.append(99.0)  # the caller goes on working with the result's own list of time stamps
+        return r_
+
+    add("construct_series_from_callers_time_list_then_append", [own_times, twin, Sg], _construct_then_append)
+    add("superpose_series_then_extend_time_stamps_of_result", [S1, S2, Sg], _superpose_then_append)
     add("subregion_of_series_then_append_to_child", [S1, Sg], _sub_then_append)
     for nm, op in (("lt", lambda x, y: x < y), ("gt", lambda x, y: x > y), ("eq", lambda x, y: x == y), ("le", lambda x, y: x <= y), ("ge", lambda x, y: x >= y)):
         add(f"cmp_{nm}_image", [A, B], lambda op=op: ("arith", op(A, B), op(A.img, B.img)))
